@@ -163,7 +163,7 @@ MUTANTS = [
     m("C10-perm-rows", "C10", "paired-permutation@eig(Diagonal,int,str,Algorithm):sorted_ind", EIGS, "eig_vecs = I_like(A).to_dense()[:, sorted_ind]", "eig_vecs = I_like(A).to_dense()[sorted_ind, :]"),
     # the argsort of eigh's (ascending) values is the identity: leaving the vectors un-permuted changes nothing -- must stay silent
     m("C10-silent-identity-permutation-unpaired", "C10", "", LAN, "V = Q @ lazify(eigvectors[:, idx])", "V = Q @ lazify(eigvectors)", silent=True),
-    m("C10-magnitude-permutation-unpaired", "C10", "paired-permutation@lanczos_eigs:idx", LAN, "    idx = xnp.argsort(eigvals, axis=-1)\n    V = Q @ lazify(eigvectors[:, idx])", "    idx = xnp.argsort(xnp.abs(eigvals), axis=-1)\n    V = Q @ lazify(eigvectors)"),
+    m("C10-magnitude-permutation-unpaired", "C10", "paired-permutation@lanczos_eigs:", LAN, "    idx = xnp.argsort(eigvals, axis=-1)\n    V = Q @ lazify(eigvectors[:, idx])", "    idx = xnp.argsort(xnp.abs(eigvals), axis=-1)\n    V = Q @ lazify(eigvectors)"),
     m("C10-eigmin-lm", "C10", "eig-wrapper@eigmin", EIGS, "es, vs = eig(A, k=1, which='SM', alg=alg)", "es, vs = eig(A, k=1, which='LM', alg=alg)"),
     m("C10-power-contract", "C10", "power-iteration@eig(LinearOperator,int,str,PowerIteration)", EIGS, "    assert k == 1 and which == 'LM', \"PowerIteration only valid for k=1 and which='LM'\"\n", ""),
     m("C10-fix-makes-proved-silent", "C10", "", EIGS, "    sorted_ind = xnp.argsort(A.diag)\n    eig_vals = A.diag[sorted_ind]", "    sorted_ind = xnp.argsort(xnp.abs(A.diag))\n    eig_vals = A.diag[sorted_ind]", silent=True),
